@@ -271,14 +271,8 @@ impl Watcher {
             Ok(penalty_tx) => {
                 // Data needs to be added the database straightaway since appointments are
                 // FKs to trackers. If handle breach fails, data will be deleted later.
-                self.dbm
-                    .lock()
-                    .unwrap()
-                    .store_appointment(uuid, appointment)
-                    // TODO: Don't unwrap, or better, make this insertion atomic with the
-                    // `responder.has_tracker` that might cause the unwrap in the first place.
-                    // ref: https://github.com/talaia-labs/rust-teos/pull/190#discussion_r1218235632
-                    .unwrap();
+                // Notice the appointment may already be there (with no tracker): it is updated in that case.
+                self.store_appointment(uuid, appointment);
 
                 if let ConfirmationStatus::Rejected(reason) = self.responder.handle_breach(
                     uuid,
